@@ -5,6 +5,7 @@ A query returns dict(name, property, verdict in {'holds','violated','inconclusiv
 reproduce a 'violated' verdict against the real build before it is reported."""
 import os as _os
 REPO = _os.environ.get("VERIF_REPO_SRC", "/repo")  # scratch trees during development only
+THOROUGH = _os.environ.get("VERIF_E3_TIER", "quick") == "thorough"  # larger unrolling bounds
 import re
 
 from mirsmt import Exec, Smt, solve, mk_deref, mk_v2b
@@ -1528,54 +1529,62 @@ def q_c18_by_key_rebuild(bodies):
         return dict(name=name, property="C18", verdict="inconclusive", detail="migration_004 not found uniquely (%d)" % len(hits), functions=[])
     body = hits[0]
     problems, nq, ncases = [], 0, 0
-    for K in range(0, 5):
+    KMAX = 7 if THOROUGH else 4
+    for K in range(0, KMAX + 1):
         for empty in ("true", "false"):
             smt = Smt()
             groups = list(range(K))
             models = _c18_models(smt, K, groups, {"TBL_RECORDS_BY_KEY_TABLE": empty})
             for t in ("TBL_RECORDS_BY_KEY_TABLE", "TBL_RECORDS_TABLE"):
                 smt.decls.append("(declare-const %s V)" % t)
-            ex = Exec(bodies, smt, models=models, max_paths=400, ctor=True, unroll=True)
+            ex = Exec(bodies, smt, models=models, max_paths=6000, ctor=True, unroll=True)
             try:
                 paths = ex.run(body, ["TX"])
             except (ValueError, AssertionError, KeyError, IndexError) as e:
                 return dict(name=name, property="C18", verdict="inconclusive", detail="K=%d: %r" % (K, e), functions=[body.name])
-            ncases += 1
-            nq += 1
-            if len(paths) != 1:
-                problems.append(("the migration has one outcome per table content (storage errors aside)", "inconclusive", "K=%d paths=%d" % (K, len(paths))))
+            if not paths:
+                problems.append(("the migration terminates on some path", "inconclusive", "K=%d" % K))
                 continue
-            pc, ret, calls, env = paths[0]
-            ins = [c[1] for c in calls if re.search(r"^Table::<.*>::insert", c[0])]
-            other = [c[0] for c in calls if re.search(r"::(remove|retain|retain_in|drain|delete_table|pop_first|pop_last|extract_if)\b", c[0])]
-            kind, payload = _c18_outcome(ret)
-            tag = "K=%d by_key empty=%s" % (K, empty)
-            want = ["(C_tuple3 (ref ns_%d) key_%d (ref au_%d))" % (i, i, i) for i in range(K)]
-            got = [v[1] for v in ins if v[0] == "(ref TBL_RECORDS_BY_KEY_TABLE)"]
-            if empty == "false":
-                # a populated index is consistent with the records table (it is maintained by every write):
-                # writing rows it already holds changes nothing, anything else does
-                if other or len(got) != len(ins) or any(g not in want for g in got):
-                    problems.append(("an index that is already populated is left as it is (reopening is a no-op)", "sat", tag))
-                continue
-            if other or len(got) != len(ins):
-                problems.append(("the rebuild only inserts into the by-key index", "sat", tag))
-                continue
-            if sorted(got) != sorted(want):
-                # syntactic mismatch: let the solver decide whether the rows can differ
-                goal = "(not (and true %s))" % " ".join("(= %s %s)" % (a, b) for a, b in zip(got, want)) if len(got) == len(want) else "true"
-                v, _ = solve(smt.script(goal))
-                if v != "unsat":
-                    problems.append(("the rebuilt index holds exactly one (namespace, key, author) row per stored entry", v, tag))
-                    continue
-            if kind != "execute" or payload != "k_%d_usize" % K:
-                problems.append(("the migration reports the number of rows it wrote", "sat", tag + " ret=" + ret[:80]))
+            for pc, ret, calls, env in paths:
+              ncases += 1
+              nq += 1
+              tag = "K=%d by_key empty=%s" % (K, empty)
+              if pc:
+                  # the table content fixes the outcome: a path that depends on anything else (e.g. on the value of a
+                  # row) is decided with its condition as context
+                  tag += " under a condition on the rows"
+              ins = [c[1] for c in calls if re.search(r"^Table::<.*>::insert", c[0])]
+              other = [c[0] for c in calls if re.search(r"::(remove|retain|retain_in|drain|delete_table|pop_first|pop_last|extract_if)\b", c[0])]
+              kind, payload = _c18_outcome(ret)
+              if kind == "err":
+                  continue
+              want = ["(C_tuple3 (ref ns_%d) key_%d (ref au_%d))" % (i, i, i) for i in range(K)]
+              got = [v[1] for v in ins if v[0] == "(ref TBL_RECORDS_BY_KEY_TABLE)"]
+              if empty == "false":
+                  # a populated index is consistent with the records table (it is maintained by every write):
+                  # writing rows it already holds changes nothing, anything else does
+                  if other or len(got) != len(ins) or any(g not in want for g in got):
+                      problems.append(("an index that is already populated is left as it is (reopening is a no-op)", "sat", tag))
+                  continue
+              if other or len(got) != len(ins):
+                  problems.append(("the rebuild only inserts into the by-key index", "sat", tag))
+                  continue
+              if sorted(got) != sorted(want):
+                  # syntactic mismatch: let the solver decide whether the rows can differ on this path
+                  ctx = " ".join(pc) if pc else "true"
+                  goal = "(and %s (not (and true %s)))" % (ctx, " ".join("(= %s %s)" % (a, b) for a, b in zip(got, want))) if len(got) == len(want) else "(and true %s)" % ctx
+                  v, _ = solve(smt.script(goal))
+                  if v != "unsat":
+                      problems.append(("the rebuilt index holds exactly one (namespace, key, author) row per stored entry", v, tag))
+                      continue
+              if kind != "execute" or payload != "k_%d_usize" % K:
+                  problems.append(("the migration reports the number of rows it wrote", "sat", tag + " ret=" + ret[:80]))
     verdict = "holds"
     if any(p[1] == "inconclusive" for p in problems):
         verdict = "inconclusive"
     if any(p[1] != "inconclusive" for p in problems):
         verdict = "violated"
-    return dict(name=name, property="C18", verdict=verdict, detail="K=0..4; problems: %s" % (problems or "none"),
+    return dict(name=name, property="C18", verdict=verdict, detail="K=0..%d; problems: %s" % (KMAX, problems or "none"),
                 functions=[body.name, "redb open_table/is_empty/iter/insert (modelled: K rows in key order)"], queries=nq, cases=ncases, witness="c18",
                 check_message=(problems[0][0] if problems else "the rebuilt index holds exactly one row per stored entry"))
 
@@ -1595,7 +1604,8 @@ def q_c18_heads_rebuild(bodies):
         return dict(name=name, property="C18", verdict="inconclusive", detail="migration_001 not found uniquely (%d)" % len(hits), functions=[])
     body = hits[0]
     problems, nq, ncases = [], 0, 0
-    for K in range(0, 4):
+    KMAX = 5 if THOROUGH else 3
+    for K in range(0, KMAX + 1):
         for groups in _compositions(K):
             for empty in ("true", "false"):
                 smt = Smt()
@@ -1603,74 +1613,80 @@ def q_c18_heads_rebuild(bodies):
                 models = _c18_models(smt, K, groups, {"TBL_LATEST_PER_AUTHOR_TABLE": empty})
                 for t in ("TBL_LATEST_PER_AUTHOR_TABLE", "TBL_RECORDS_TABLE"):
                     smt.decls.append("(declare-const %s V)" % t)
-                ex = Exec(bodies, smt, models=models, max_paths=400, ctor=True, unroll=True)
+                ex = Exec(bodies, smt, models=models, max_paths=6000, ctor=True, unroll=True)
                 try:
                     paths = ex.run(body, ["TX"])
                 except (ValueError, AssertionError, KeyError, IndexError) as e:
                     return dict(name=name, property="C18", verdict="inconclusive", detail="K=%d groups=%s: %r" % (K, groups, e), functions=[body.name])
                 ncases += 1
                 tag = "K=%d groups=%s heads empty=%s" % (K, groups, empty)
-                if len(paths) != 1:
-                    problems.append(("the migration has one outcome per table content (storage errors aside)", "inconclusive", tag + " paths=%d" % len(paths)))
+                if not paths:
+                    problems.append(("the migration terminates on some path", "inconclusive", tag))
                     continue
-                pc, ret, calls, env = paths[0]
-                ins = [c[1] for c in calls if re.search(r"^Table::<.*>::insert", c[0])]
-                other = [c[0] for c in calls if re.search(r"::(remove|retain|retain_in|drain|delete_table|pop_first|pop_last|extract_if)\b", c[0])]
-                kind, payload = _c18_outcome(ret)
-                if empty == "false" or K == 0:
-                    if kind != "skip" or ins or other:
-                        problems.append(("a populated head table (or an empty store) is left untouched (reopening is a no-op)", "sat", tag))
-                    continue
-                ngroups = len(set(groups))
-                if other or any(v[0] != "(ref TBL_LATEST_PER_AUTHOR_TABLE)" for v in ins):
-                    problems.append(("the rebuild only inserts into the head table", "sat", tag))
-                    continue
-                by_group = {}
-                bad = False
-                for v in ins:
-                    mk = re.match(r"^\(C_tuple2 \(ref ns_(\d+)\) \(ref au_(\d+)\)\)$", v[1])
-                    if not mk or mk.group(1) != mk.group(2) or not v[2].startswith("(C_tuple2 "):
-                        bad = True
+                before = len(problems)
+                for pc, ret, calls, env in paths[:64]:
+                    if len(problems) > before:
                         break
-                    by_group.setdefault(int(mk.group(1)), []).append(split_sexpr_args(v[2]))
-                if bad or sorted(by_group) != list(range(ngroups)) or any(len(x) != 1 for x in by_group.values()):
-                    problems.append(("exactly one head row is written per (namespace, author) present in the records table", "sat", tag))
-                    continue
-                # order facts: every Ge test in any term is the total preorder `ge`
-                allterms = " ".join(" ".join(v) for v in ins)
-                extra = []
-                for op, a, b2 in _find_ops(allterms):
-                    t = "(op_%s %s %s)" % (op, a, b2)
-                    d = {"Ge": "(ge %s %s)" % (a, b2), "Gt": "(not (ge %s %s))" % (b2, a), "Le": "(ge %s %s)" % (b2, a), "Lt": "(not (ge %s %s))" % (a, b2)}[op]
-                    extra.append("(= (v2b %s) %s)" % (t, d))
-                tss = ["ts_%d" % i for i in range(K)]
-                for a in tss:
-                    extra.append("(ge %s %s)" % (a, a))
-                    for b2 in tss:
-                        extra.append("(or (ge %s %s) (ge %s %s))" % (a, b2, b2, a))
-                        for c in tss:
-                            extra.append("(=> (and (ge %s %s) (ge %s %s)) (ge %s %s))" % (a, b2, b2, c, a, c))
-                spec = []
-                for g, rows in by_group.items():
-                    TS, KEYS = rows[0]
-                    members = [i for i in range(K) if groups[i] == g]
-                    alts = []
-                    for i in members:
-                        alts.append("(and (= %s ts_%d) (= %s key_%d) %s)" % (TS, i, KEYS, i, " ".join("(ge ts_%d ts_%d)" % (i, j) for j in members)))
-                    spec.append("(or false %s)" % " ".join(alts))
-                nq += 1
-                v, _ = solve(smt.script("(and true %s (not (and true %s)))" % (" ".join(extra), " ".join(spec))))
-                if v != "unsat":
-                    problems.append(("the rebuilt head of an author is the (timestamp, key) of one of the author's entries with the greatest timestamp", v, tag))
-                    continue
-                if kind != "execute" or payload != "k_%d_usize" % ngroups:
-                    problems.append(("the migration reports the number of heads it wrote", "sat", tag + " ret=" + ret[:80]))
+                    ctx_pc = " ".join(pc)
+                    ins = [c[1] for c in calls if re.search(r"^Table::<.*>::insert", c[0])]
+                    other = [c[0] for c in calls if re.search(r"::(remove|retain|retain_in|drain|delete_table|pop_first|pop_last|extract_if)\b", c[0])]
+                    kind, payload = _c18_outcome(ret)
+                    if empty == "false" or K == 0:
+                        if kind != "skip" or ins or other:
+                            problems.append(("a populated head table (or an empty store) is left untouched (reopening is a no-op)", "sat", tag))
+                        continue
+                    ngroups = len(set(groups))
+                    if other or any(v[0] != "(ref TBL_LATEST_PER_AUTHOR_TABLE)" for v in ins):
+                        problems.append(("the rebuild only inserts into the head table", "sat", tag))
+                        continue
+                    by_group = {}
+                    bad = False
+                    for v in ins:
+                        mk = re.match(r"^\(C_tuple2 \(ref ns_(\d+)\) \(ref au_(\d+)\)\)$", v[1])
+                        if not mk or mk.group(1) != mk.group(2) or not v[2].startswith("(C_tuple2 "):
+                            bad = True
+                            break
+                        by_group.setdefault(int(mk.group(1)), []).append(split_sexpr_args(v[2]))
+                    if bad or sorted(by_group) != list(range(ngroups)) or any(len(x) != 1 for x in by_group.values()):
+                        problems.append(("exactly one head row is written per (namespace, author) present in the records table", "sat", tag))
+                        continue
+                    # order facts: every Ge test in any term is the total preorder `ge`
+                    allterms = " ".join(" ".join(v) for v in ins)
+                    extra = []
+                    for op, a, b2 in _find_ops(allterms):
+                        t = "(op_%s %s %s)" % (op, a, b2)
+                        d = {"Ge": "(ge %s %s)" % (a, b2), "Gt": "(not (ge %s %s))" % (b2, a), "Le": "(ge %s %s)" % (b2, a), "Lt": "(not (ge %s %s))" % (a, b2)}[op]
+                        extra.append("(= (v2b %s) %s)" % (t, d))
+                    tss = ["ts_%d" % i for i in range(K)]
+                    for a in tss:
+                        extra.append("(ge %s %s)" % (a, a))
+                        for b2 in tss:
+                            extra.append("(or (ge %s %s) (ge %s %s))" % (a, b2, b2, a))
+                            for c in tss:
+                                extra.append("(=> (and (ge %s %s) (ge %s %s)) (ge %s %s))" % (a, b2, b2, c, a, c))
+                    spec = []
+                    for g, rows in by_group.items():
+                        TS, KEYS = rows[0]
+                        members = [i for i in range(K) if groups[i] == g]
+                        alts = []
+                        for i in members:
+                            alts.append("(and (= %s ts_%d) (= %s key_%d) %s)" % (TS, i, KEYS, i, " ".join("(ge ts_%d ts_%d)" % (i, j) for j in members)))
+                        spec.append("(or false %s)" % " ".join(alts))
+                    nq += 1
+                    v, _ = solve(smt.script("(and true %s %s (not (and true %s)))" % (ctx_pc, " ".join(extra), " ".join(spec))))
+                    if v != "unsat":
+                        problems.append(("the rebuilt head of an author is the (timestamp, key) of one of the author's entries with the greatest timestamp", v, tag))
+                        continue
+                    if kind != "execute" or payload != "k_%d_usize" % ngroups:
+                        problems.append(("the migration reports the number of heads it wrote", "sat", tag + " ret=" + ret[:80]))
+                if len(paths) > 64 and len(problems) == before:
+                    problems.append(("the migration has a bounded number of outcomes per table content", "inconclusive", tag + " paths=%d" % len(paths)))
     verdict = "holds"
     if any(p[1] == "inconclusive" for p in problems):
         verdict = "inconclusive"
     if any(p[1] != "inconclusive" for p in problems):
         verdict = "violated"
-    return dict(name=name, property="C18", verdict=verdict, detail="K=0..3, all contiguous groupings; cases=%d; problems: %s" % (ncases, problems or "none"),
+    return dict(name=name, property="C18", verdict=verdict, detail="K=0..%d, all contiguous groupings; cases=%d; problems: %s" % (KMAX, ncases, problems or "none"),
                 functions=[body.name, body.name + "::{closure#0}", body.name + "::{closure#1}", "redb open_table/is_empty/iter/insert, std HashMap entry API (modelled)"],
                 queries=nq, cases=ncases, witness="c18",
                 check_message=(problems[0][0] if problems else "the rebuilt head of an author is its greatest-timestamp entry"))
@@ -1739,8 +1755,9 @@ def q_c18_run_migration(bodies):
     for f, n in (("C_Ok", 1), ("C_Continue", 1), ("discr", 1)):
         smt2.fun(f, n)
     smt2.decls.append("(declare-const DB V)")
-    models2 = {r"^run_migration::<": lambda ex, v: "(C_Ok %s)" % ex._konst("unit"), r" as Try>::branch$": m_branch}
-    ex2 = Exec(bodies, smt2, models=models2, max_paths=400, ctor=True)
+    models2 = dict(_tracing_off_models())
+    models2.update({r"^run_migration::<": lambda ex, v: "(C_Ok %s)" % smt2.const("migration_result"), r" as Try>::branch$": m_branch})
+    ex2 = Exec(bodies, smt2, models=models2, max_paths=4000, ctor=True)
     try:
         paths2 = ex2.run(h1[0], ["DB"])
     except (ValueError, AssertionError, KeyError, IndexError) as e:
@@ -1872,6 +1889,42 @@ def _c06_paths(bodies, body, args):
     return smt, ex.run(body, args)
 
 
+
+_C06_COMMIT_RE = r"^TransactionAndTables::\w+$"
+
+
+def _c06_commit_calls(calls):
+    """indices of calls that end the open write transaction: every consuming TransactionAndTables method
+    other than the accessors (commit and anything a change may add next to it)"""
+    return [i for i, c in enumerate(calls) if re.match(_C06_COMMIT_RE, c[0]) and not re.search(r"::(new|tables|with_tables_mut)$", c[0])]
+
+
+def _c06_may_commit(bodies, method, memo=None, depth=0):
+    """can `Store::<method>` make the open write transaction durable-or-gone (commit it / replace it)?
+    True / False / None (unknown shape).  Thin wrappers and callees are followed."""
+    memo = {} if memo is None else memo
+    if method in memo:
+        return memo[method]
+    memo[method] = False  # recursion guard
+    body = _c06_store_method(bodies, method)
+    if body is None or depth > 4:
+        memo[method] = None
+        return None
+    text_calls = [b[-1] for b in body.blocks.values() if b]
+    direct = any(re.search(r"= TransactionAndTables::(?!new|tables\b|with_tables_mut)\w+\(", t) for t in text_calls)
+    res = direct
+    for t in text_calls:
+        m = re.search(r"= store::fs::Store::(\w+)(::<.*>)?\(", t)
+        if m and m.group(1) != method:
+            sub = _c06_may_commit(bodies, m.group(1), memo, depth + 1)
+            if sub is None:
+                res = None if not res else res
+            elif sub:
+                res = True
+    memo[method] = res
+    return res
+
+
 def _c06_access_methods(bodies):
     """names of the Store methods through which iroh-docs code reaches the write transaction: every
     `store::fs::Store::<m>::<..>(..)` callee whose resolved body runs a caller-supplied closure"""
@@ -1916,6 +1969,9 @@ def q_c06_txn_glue(bodies):
         for pc, ret, calls, env in paths:
             ncases += 1
             commits = [c for c in calls if c[0] == "TransactionAndTables::commit"]
+            other_end = [c for c in calls if re.match(_C06_COMMIT_RE, c[0]) and not re.search(r"::(new|tables|with_tables_mut|commit)$", c[0])]
+            if other_end:
+                problems.append(("flush ends the open write transaction with TransactionAndTables::commit (the durable commit)", "sat"))
             if ret.startswith("(C_Ok ") and not commits:
                 nq += 1
                 v, _ = solve(smt.script("(and true %s %s)" % (" ".join(pc), is_write)))
@@ -1927,6 +1983,7 @@ def q_c06_txn_glue(bodies):
                 if v != "unsat":
                     problems.append(("flush commits nothing but the open write transaction", v))
         may_commit = {}
+        memo_mc = {}
         todo = [("tables", ht, ["STORE"])]
         for mname in methods:
             body, args, chain = _c06_resolve(bodies, mname, ["STORE", "F"])
@@ -1940,7 +1997,7 @@ def q_c06_txn_glue(bodies):
             for pc, ret, calls, env in paths:
                 ncases += 1
                 names = [c[0] for c in calls]
-                ci = [i for i, n in enumerate(names) if n == "TransactionAndTables::commit"]
+                ci = _c06_commit_calls(calls) + [i for i, n in enumerate(names) if re.match(r"^store::fs::Store::(\w+)", n) and _c06_may_commit(bodies, re.match(r"^store::fs::Store::(\w+)", n).group(1), memo_mc) is not False]
                 fi = [i for i, n in enumerate(names) if n.startswith("TransactionAndTables::with_tables_mut::<")]
                 if ci:
                     may_commit[label] = True
@@ -1952,6 +2009,27 @@ def q_c06_txn_glue(bodies):
                         problems.append(("%s never commits after the caller's closure ran" % label, "sat"))
                 if label != "tables" and ret.startswith("(C_Ok ") and len(fi) != 1:
                     problems.append(("%s runs the caller's closure exactly once on its success path" % label, "sat"))
+        # the read-side accesses end an open write transaction with the same durable commit
+        for mname in ("snapshot", "snapshot_owned"):
+            b = _c06_store_method(bodies, mname)
+            if b is None:
+                continue
+            funcs.append(b.name)
+            smt, paths = _c06_paths(bodies, b, ["STORE"])
+            for pc, ret, calls, env in paths:
+                ncases += 1
+                ended = [c for c in calls if re.match(_C06_COMMIT_RE, c[0]) and not re.search(r"::(new|tables|with_tables_mut|commit)$", c[0])]
+                if ended:
+                    problems.append(("%s ends an open write transaction with TransactionAndTables::commit (the durable commit), so that a later flush has nothing left to do" % mname, "sat"))
+        hc = find_body(bodies, r"^tables::<impl at src/store/fs/tables.rs:\d+:\d+: \d+:\d+>::commit$")
+        if len(hc) == 1:
+            funcs.append(hc[0].name)
+            ctext = " ".join(" ".join(bl) for bl in hc[0].blocks.values())
+            ncases += 1
+            if "WriteTransaction::commit(" not in ctext or "set_durability" in ctext or "set_two_phase" in ctext:
+                problems.append(("TransactionAndTables::commit is redb's plain (durable) commit of the owned transaction", "sat"))
+        else:
+            problems.append(("TransactionAndTables::commit found", "inconclusive"))
     except (ValueError, AssertionError, KeyError, IndexError) as e:
         return dict(name=name, property="C06", verdict="inconclusive", detail=repr(e), functions=funcs)
     verdict = "holds"
@@ -1986,21 +2064,28 @@ def q_c06_put_atomic(bodies):
     if hover:
         return dict(name=name, property="C06", verdict="inconclusive", detail="the file-backed store overrides put: this query does not know its shape", functions=[hover[0].name])
     nq = 0
-    access = lambda bn, bl: bool(bl) and re.search(r"= store::fs::Store::\w+::<", bl[-1]) is not None  # noqa
+    ACC = r"= store::fs::Store::(\w+)(?:::<.*>)?\("
+    access = lambda bn, bl: bool(bl) and re.search(ACC, bl[-1]) is not None  # noqa
     Cs, used = [], {}
     for b in (hr[0], he[0]):
         nq += 1
         ret_blocks = [bn for bn, bl in b.blocks.items() if bl and bl[-1].startswith("return")]
         skip, _ = _reach_avoiding(b, access, ret_blocks)
-        ms = sorted({re.search(r"= store::fs::Store::(\w+)::<", bl[-1]).group(1) for bn, bl in b.blocks.items() if access(bn, bl)})
+        ms = sorted({re.search(ACC, bl[-1]).group(1) for bn, bl in b.blocks.items() if access(bn, bl)})
         used[b.name.rsplit("::", 1)[1]] = ms
         Cs.append(skip is False and len(ms) >= 1)
-    # A: any access method entry_put may use
-    A, chains, npaths = False, [], 0
+    # A: any Store method entry_put goes through may commit (before its closure, after it, or as a side effect)
+    A, chains, npaths, memo_mc, why = False, [], 0, {}, []
     for mname in used.get("entry_put", []):
         body, args, chain = _c06_resolve(bodies, mname, ["STORE", "F"])
         if body is None:
-            return dict(name=name, property="C06", verdict="inconclusive", detail=args, functions=chain)
+            mc = _c06_may_commit(bodies, mname, memo_mc)
+            if mc is None:
+                return dict(name=name, property="C06", verdict="inconclusive", detail="cannot tell whether Store::%s commits" % mname, functions=chain)
+            if mc:
+                A = True
+                why.append("%s ends the open transaction" % mname)
+            continue
         chains += chain
         try:
             smt, paths = _c06_paths(bodies, body, args)
@@ -2009,13 +2094,13 @@ def q_c06_put_atomic(bodies):
         npaths += len(paths)
         for pc, ret, calls, env in paths:
             names = [c[0] for c in calls]
-            ci = [i for i, n in enumerate(names) if n == "TransactionAndTables::commit"]
-            fi = [i for i, n in enumerate(names) if n.startswith("TransactionAndTables::with_tables_mut::<")]
-            if ci and fi and min(ci) < min(fi):
+            ci = _c06_commit_calls(calls) + [i for i, n in enumerate(names) if re.match(r"^store::fs::Store::(\w+)", n) and _c06_may_commit(bodies, re.match(r"^store::fs::Store::(\w+)", n).group(1), memo_mc) is not False]
+            if ci:
                 nq += 1
                 v, _ = solve(smt.script("(and true %s)" % " ".join(pc)))
                 if v == "sat":
                     A = True
+                    why.append("%s can commit" % mname)
                 elif v != "unsat":
                     return dict(name=name, property="C06", verdict="inconclusive", detail="feasibility of the commit path: %s" % v, functions=chain)
     call = lambda pat: (lambda bn, b: bool(b) and re.search(r"= <[^>]*Self as ranger::Store<E>>::%s(::<.*>)?\(|= ranger::Store::%s(::<.*>)?\(" % (pat, pat), b[-1]) is not None)  # noqa
@@ -2024,7 +2109,7 @@ def q_c06_put_atomic(bodies):
     if B is None or statsB["sources"] == 0 or statsB["targets"] == 0:
         return dict(name=name, property="C06", verdict="inconclusive", detail="put does not call remove_prefix_filtered/entry_put in the recognised form: %s" % statsB, functions=[hp[0].name])
     violated = A and B and all(Cs)
-    detail = "A (the access used by entry_put %s may commit before running the closure) = %s; B (entry_put after remove_prefix_filtered in put) = %s %s; C (both go through a store access %s) = %s" % (
+    detail = "A (a store access used by entry_put %s may commit) = %s; B (entry_put after remove_prefix_filtered in put) = %s %s; C (both go through a store access %s) = %s" % (
         used.get("entry_put"), A, B, statsB, used, Cs)
     return dict(name=name, property="C06", verdict="violated" if violated else "holds", detail=detail,
                 functions=chains + [hp[0].name, hr[0].name, he[0].name], queries=nq, cases=npaths + 3, witness="c06",
@@ -2051,3 +2136,274 @@ def _reach_avoiding(body, avoid_pred, targets):
 
 
 QUERIES["C06"] = [q_c06_txn_glue, q_c06_put_atomic]
+
+
+# ------------------------------------------------------------------------------------------------
+# C03 / C12 / C01: the per-entry loop of ranger::Store::process_message (generic, async)
+# ------------------------------------------------------------------------------------------------
+
+def _coroutine_edges(body):
+    """block graph of an async body: normal successors, and suspension points continue at their resume block"""
+    resume, suspend = {}, {}
+    for k, tgt in re.findall(r"(\d+): (bb\d+)", body.blocks["bb0"][-1]):
+        resume[int(k)] = tgt
+    for bn, b in body.blocks.items():
+        for st in b:
+            m = re.match(r"^discriminant\(\(\*_\d+\)\) = (\d+);$", st)
+            if m and b[-1].startswith("return") and int(m.group(1)) >= 3:
+                suspend[bn] = int(m.group(1))
+    edges = []
+    for bn in body.blocks:
+        if bn in suspend:
+            if resume.get(suspend[bn]):
+                edges.append((bn, resume[suspend[bn]]))
+            continue
+        for s2 in body.successors(bn):
+            if s2 in body.blocks:
+                edges.append((bn, s2))
+    return edges
+
+
+def _reach_edges(edges, start_nodes, targets, blocked_nodes):
+    """is a target reachable from a start node without entering a blocked node?  (propositional; z3+cvc5)"""
+    nodes = sorted({a for a, _ in edges} | {b for _, b in edges} | set(start_nodes) | set(targets))
+    L = ["(set-logic QF_UF)"] + ["(declare-const r_%s Bool)" % n for n in nodes]
+    for s in start_nodes:
+        L.append("(assert r_%s)" % s)
+    for a, b in edges:
+        if b in blocked_nodes:
+            continue
+        L.append("(assert (=> r_%s r_%s))" % (a, b))
+    for t in targets:
+        L.append("(assert (not r_%s))" % t)
+    L.append("(check-sat)")
+    verdict, _ = solve("\n".join(L), timeout=60)
+    return {"unsat": True, "sat": False}.get(verdict)
+
+
+def q_pm_item_loop(bodies):
+    """C03/C12/C01: the loop of the REAL generic `ranger::Store::process_message` that applies the entries
+    of an item part (`for (entry, content_status) in values`), async coroutine MIR.
+    A. One iteration executed symbolically from the `values.next()` call to the next one (all paths, incl.
+       the suspension inside the on_insert future), decided per path with z3+cvc5:
+       * `put` is called only for the entry just taken, only after the validate callback was called on
+         that entry (with its content status) and answered true; an accepted entry is always put;
+       * `on_insert` is called only after `put` answered Ok(Inserted), with that entry and its status;
+         an inserted entry is always announced; each callback / put at most once per entry.
+    B. Over the coroutine's block graph (suspension points continue at their resume blocks): after the
+       on_insert call no second validate / put / on_insert call is reachable without taking the next
+       entry (so resuming a pending announcement does not repeat anything)."""
+    name = "pm_item_loop"
+    hits = find_body(bodies, r"^ranger::Store::process_message::\{closure#0\}$")
+    src = open(REPO + "/src/ranger.rs").read()
+    me = re.search(r"enum InsertOutcome \{(.*?)\n\}", src, re.S)
+    variants = re.findall(r"^\s{4}(\w+)", me.group(1), re.M) if me else []
+    if len(hits) != 1 or "Inserted" not in variants:
+        return dict(name=name, property="C12", verdict="inconclusive", detail="process_message coroutine / InsertOutcome not found uniquely", functions=[])
+    body = hits[0]
+    INSERTED = variants.index("Inserted")
+
+    def blocks_calling(pat):
+        return [bn for bn, b in body.blocks.items() if b and re.search(pat, b[-1]) and "(cleanup)" not in bn]
+    NEXT = blocks_calling(r"= <std::vec::IntoIter<\(E, sync::ContentStatus\)> as Iterator>::next\(")
+    VAL = blocks_calling(r"= <F as Fn<\(&Self, &E, sync::ContentStatus\)>>::call\(")
+    PUT = blocks_calling(r"= <Self as ranger::Store<E>>::put\(")
+    INS = blocks_calling(r"= <F2 as AsyncFnMut<\(&Self, E, sync::ContentStatus\)>>::async_call_mut\(")
+    if len(NEXT) > 1 and len(VAL) == 1:
+        # several loops over (entry, status) vectors: the one that validates is the one whose head reaches the
+        # validate call without passing another loop head
+        edges0 = _coroutine_edges(body)
+        NEXT = [n for n in NEXT if _reach_edges(edges0, [b for a, b in edges0 if a == n], [VAL[0]], set(NEXT))]
+    if not (len(NEXT) == 1 and len(VAL) == 1 and len(PUT) == 1 and len(INS) == 1):
+        return dict(name=name, property="C12", verdict="inconclusive", detail="call sites not unique: next=%s validate=%s put=%s on_insert=%s" % (NEXT, VAL, PUT, INS), functions=[body.name])
+    # the coroutine state pointer and the loop exit
+    mstate = re.search(r"\(\(\(\*(_\d+)\) as variant#", " ".join(body.blocks[NEXT[0]]))
+    nxt_succ = Exec._split_call(body.blocks[NEXT[0]][-1])[3]
+    sw = body.blocks[nxt_succ][-1]
+    mexit = re.search(r"switchInt\(.*\) -> \[0: (bb\d+), 1: (bb\d+)", sw)
+    if not mstate or not mexit:
+        return dict(name=name, property="C12", verdict="inconclusive", detail="loop shape not recognised", functions=[body.name])
+    EXIT = mexit.group(1)
+    smt = Smt()
+    for c in ("SELFPIN", "CX", "CORO", "NEXTRES", "VALRES", "PUTRES"):
+        smt.decls.append("(declare-const %s V)" % c)
+    for f, n in (("discr", 1), ("fld_0", 1), ("fld_1", 1), ("as_Some", 1), ("as_Continue", 1), ("clone_of", 1), ("branch_of", 1)):
+        smt.fun(f, n)
+    models = {
+        r"^<std::vec::IntoIter<\(E, sync::ContentStatus\)> as Iterator>::next$": lambda ex, v: "NEXTRES",
+        r"^<F as Fn<\(&Self, &E, sync::ContentStatus\)>>::call$": lambda ex, v: "VALRES",
+        r"^<Self as ranger::Store<E>>::put$": lambda ex, v: "PUTRES",
+        r"^<E as Clone>::clone$": lambda ex, v: "(clone_of %s)" % mk_deref(v[0]),
+        r"^<Result<InsertOutcome, .*> as Try>::branch$": lambda ex, v: "(branch_of %s)" % v[0],
+    }
+    ex = Exec(bodies, smt, models=models, max_paths=2000)
+    ex.stop_blocks = {NEXT[0], EXIT}
+    res = []
+    env0 = {"_1": "SELFPIN", "_2": "CX", mstate.group(1): "(ref CORO)"}
+    try:
+        ex._walk(body, NEXT[0], env0, [], [], res, 0)
+    except (ValueError, AssertionError, KeyError, IndexError, RecursionError) as e:
+        return dict(name=name, property="C12", verdict="inconclusive", detail="segment execution: %s" % str(e)[:200], functions=[body.name])
+    ENTRY = "(fld_0 (fld_0 (as_Some NEXTRES)))"
+    STATUS = "(fld_1 (fld_0 (as_Some NEXTRES)))"
+    accepted = "(v2b VALRES)"
+    inserted = "(and (= (discr (branch_of PUTRES)) k_int_0) (= (discr (fld_0 (as_Continue (branch_of PUTRES)))) k_int_%d))" % INSERTED
+    problems, nq = [], 0
+
+    def ask(msg, goal):
+        nonlocal nq
+        nq += 1
+        v, _ = solve(smt.script(goal))
+        if v != "unsat":
+            problems.append((msg, v))
+
+    def tuple_args(t):
+        from mirsmt import split_sexpr_args
+        return split_sexpr_args(t) if t.startswith("(mk_tuple") else [t]
+    n_ins = n_put = 0
+    for pc, ret, calls, env in res:
+        ctx = "(and true %s)" % " ".join(pc)
+        val = [c for c in calls if re.search(r"^<F as Fn<", c[0])]
+        put = [c for c in calls if re.search(r"^<Self as ranger::Store<E>>::put$", c[0])]
+        ins = [c for c in calls if re.search(r"^<F2 as AsyncFnMut<", c[0])]
+        order = [("V" if c in val else "P" if c in put else "I") for c in calls if c in val or c in put or c in ins]
+        if len(val) > 1 or len(put) > 1 or len(ins) > 1 or "".join(order) not in ("", "V", "VP", "VPI"):
+            problems.append(("per entry: validate, then put, then on_insert, each at most once (got %s)" % "".join(order), "sat"))
+            continue
+        if val:
+            a = tuple_args(val[0][1][1])
+            if len(a) != 3:
+                problems.append(("the validate callback receives (store, entry, content status)", "sat"))
+            else:
+                ask("the validate callback is asked about the entry just taken from the message, with its content status",
+                    "(and %s (not (and (= %s %s) (= %s %s))))" % (ctx, mk_deref(a[1]), ENTRY, a[2], STATUS))
+        if put:
+            n_put += 1
+            ask("an entry is stored only after the validate callback accepted it", "(and %s (not %s))" % (ctx, accepted))
+            ask("the entry that is stored is the entry that was validated", "(and %s (not (= %s (clone_of %s))))" % (ctx, put[0][1][1], ENTRY))
+        elif val and not ret.startswith("STOP") is False:
+            pass
+        if val and not put:
+            ask("an entry accepted by the validate callback is stored", "(and %s %s)" % (ctx, accepted))
+        if ins:
+            n_ins += 1
+            ask("on_insert fires only for an entry that put reported as inserted", "(and %s (not %s))" % (ctx, inserted))
+            a = tuple_args(ins[0][1][1])
+            if len(a) != 3:
+                problems.append(("on_insert receives (store, entry, content status)", "sat"))
+            else:
+                ask("on_insert announces the entry that was stored, with the content status delivered with it",
+                    "(and %s (not (and (= %s %s) (= %s %s))))" % (ctx, a[1], ENTRY, a[2], STATUS))
+        if put and not ins:
+            ask("every entry that put reports as inserted is announced through on_insert", "(and %s %s)" % (ctx, inserted))
+    if n_ins == 0 or n_put == 0:
+        problems.append(("the loop stores and announces entries on some path", "inconclusive"))
+    # B: nothing is repeated when a pending announcement is resumed
+    edges = _coroutine_edges(body)
+    after_ins = [b for a, b in edges if a == INS[0]]
+    nq += 1
+    r = _reach_edges(edges, after_ins, [VAL[0], PUT[0], INS[0]], {NEXT[0]})
+    if r is None:
+        problems.append(("graph query", "inconclusive"))
+    elif r:
+        problems.append(("after on_insert was called for an entry, nothing is validated, stored or announced again before the next entry is taken", "sat"))
+    verdict = "holds"
+    if any(p[1] == "inconclusive" for p in problems):
+        verdict = "inconclusive"
+    if any(p[1] != "inconclusive" for p in problems):
+        verdict = "violated"
+    return dict(name=name, property="C12", verdict=verdict, detail="iteration paths=%d (with put %d, with on_insert %d), graph edges=%d; problems: %s" % (len(res), n_put, n_ins, len(edges), problems or "none"),
+                functions=[body.name + " (generic over the store, the entry type and the three callbacks)"], queries=nq, cases=len(res) + 1, witness="c12pm",
+                check_message=(problems[0][0] if problems else "process_message gates storing on validation and announcing on insertion"))
+
+
+def q_pm_fingerprint_gate(bodies):
+    """C01 (termination / silence between equal replicas): the loop of the REAL generic
+    `process_message` over the fingerprint parts of a message.  A part must be answered (something
+    pushed to the reply) only if the local fingerprint of the part's range differs from the received one.
+    A. Segment execution from `fingerprints.next()` up to the first `get_range_len` call (the start of
+       the answering code): on every such path `get_fingerprint` was asked for the part's range, its
+       result was compared with the part's fingerprint and the comparison said 'different' (z3+cvc5).
+    B. Block graph: no push to the reply is reachable from the loop head without passing `get_range_len`."""
+    name = "pm_fingerprint_gate"
+    hits = find_body(bodies, r"^ranger::Store::process_message::\{closure#0\}$")
+    if len(hits) != 1:
+        return dict(name=name, property="C01", verdict="inconclusive", detail="process_message coroutine not found uniquely", functions=[])
+    body = hits[0]
+
+    def blocks_calling(pat):
+        return [bn for bn, b in body.blocks.items() if b and re.search(pat, b[-1])]
+    NEXT = blocks_calling(r"= <std::vec::IntoIter<RangeFingerprint<.*>> as Iterator>::next\(")
+    GRL = blocks_calling(r"= <Self as ranger::Store<E>>::get_range_len\(")
+    PUSH = blocks_calling(r"= Vec::<MessagePart<E>>::push\(")
+    if len(NEXT) != 1 or not GRL or not PUSH:
+        return dict(name=name, property="C01", verdict="inconclusive", detail="call sites: next=%s get_range_len=%s push=%s" % (NEXT, GRL, PUSH), functions=[body.name])
+    mstate = re.search(r"\(\(\(\*(_\d+)\) as variant#", " ".join(body.blocks[NEXT[0]]))
+    nxt_succ = Exec._split_call(body.blocks[NEXT[0]][-1])[3]
+    mexit = re.search(r"switchInt\(.*\) -> \[0: (bb\d+), 1: (bb\d+)", body.blocks[nxt_succ][-1])
+    if not mstate or not mexit:
+        return dict(name=name, property="C01", verdict="inconclusive", detail="loop shape not recognised", functions=[body.name])
+    smt = Smt()
+    for c in ("SELFPIN", "CX", "CORO", "NEXTRES", "GFPRES", "EQRES"):
+        smt.decls.append("(declare-const %s V)" % c)
+    for f, n in (("discr", 1), ("fld_0", 1), ("fld_1", 1), ("as_Some", 1), ("as_Continue", 1), ("branch_of", 1)):
+        smt.fun(f, n)
+    models = {
+        r"^<std::vec::IntoIter<RangeFingerprint<.*>> as Iterator>::next$": lambda ex, v: "NEXTRES",
+        r"^<Self as ranger::Store<E>>::get_fingerprint$": lambda ex, v: "GFPRES",
+        r"^<Result<Fingerprint, .*> as Try>::branch$": lambda ex, v: "(branch_of %s)" % v[0],
+        r"^<Fingerprint as PartialEq>::eq$": lambda ex, v: "EQRES",
+    }
+    ex = Exec(bodies, smt, models=models, max_paths=2000)
+    ex.stop_blocks = set(GRL) | {NEXT[0], mexit.group(1)}
+    res = []
+    try:
+        ex._walk(body, NEXT[0], {"_1": "SELFPIN", "_2": "CX", mstate.group(1): "(ref CORO)"}, [], [], res, 0)
+    except (ValueError, AssertionError, KeyError, IndexError, RecursionError) as e:
+        return dict(name=name, property="C01", verdict="inconclusive", detail="segment execution: %s" % str(e)[:200], functions=[body.name])
+    PART = "(fld_0 (as_Some NEXTRES))"
+    problems, nq, n_answer = [], 0, 0
+    for pc, ret, calls, env in res:
+        ctx = "(and true %s)" % " ".join(pc)
+        if any(re.search(r"^Vec::<MessagePart<E>>::push$", c[0]) for c in calls):
+            problems.append(("nothing is added to the reply before the local fingerprint was compared", "sat"))
+            continue
+        if not ret.startswith("STOP:") or ret[5:] not in GRL:
+            continue
+        n_answer += 1
+        gfp = [c for c in calls if re.search(r"get_fingerprint$", c[0])]
+        eqs = [c for c in calls if re.search(r"^<Fingerprint as PartialEq>::eq$", c[0])]
+        if len(gfp) != 1 or len(eqs) != 1:
+            problems.append(("a fingerprint part is answered only after comparing the local fingerprint of its range with the received one", "sat"))
+            continue
+        nq += 2
+        v, _ = solve(smt.script("(and %s (not (and (= %s (fld_0 %s)) (or (and (= %s (fld_0 (as_Continue (branch_of GFPRES)))) (= %s (fld_1 %s))) (and (= %s (fld_0 (as_Continue (branch_of GFPRES)))) (= %s (fld_1 %s)))))))" % (
+            ctx, mk_deref(gfp[0][1][1]), PART, mk_deref(eqs[0][1][0]), mk_deref(eqs[0][1][1]), PART, mk_deref(eqs[0][1][1]), mk_deref(eqs[0][1][0]), PART)))
+        if v != "unsat":
+            problems.append(("the comparison is between get_fingerprint(part.range) and part.fingerprint", v))
+        v, _ = solve(smt.script("(and %s (v2b EQRES))" % ctx))
+        if v != "unsat":
+            problems.append(("a fingerprint part whose fingerprint equals the local one is not answered", v))
+    if n_answer == 0:
+        problems.append(("the answering code is reached on some path", "inconclusive"))
+    edges = _coroutine_edges(body)
+    nq += 1
+    r = _reach_edges(edges, [b for a, b in edges if a == NEXT[0]], PUSH, set(GRL) | {NEXT[0]})
+    # pushes that belong to the item loop are not reachable from the fingerprint loop head at all
+    if r is None:
+        problems.append(("graph query", "inconclusive"))
+    elif r:
+        problems.append(("every answer to a fingerprint part is produced after the local/received comparison (get_range_len is its first step)", "sat"))
+    verdict = "holds"
+    if any(p[1] == "inconclusive" for p in problems):
+        verdict = "inconclusive"
+    if any(p[1] != "inconclusive" for p in problems):
+        verdict = "violated"
+    return dict(name=name, property="C01", verdict=verdict, detail="segment paths=%d (answering %d); problems: %s" % (len(res), n_answer, problems or "none"),
+                functions=[body.name + " (generic)"], queries=nq, cases=len(res) + 1, witness="c01silence",
+                check_message=(problems[0][0] if problems else "equal fingerprints are not answered"))
+
+
+QUERIES["C12"] = QUERIES["C12"] + [q_pm_item_loop]
+QUERIES["C01"] = [q_pm_fingerprint_gate, q_pm_item_loop]
+QUERIES["C03"] = QUERIES["C03"] + [q_pm_item_loop]
